@@ -263,6 +263,34 @@ safe_verbatim_harness!(c02_safe_string_verbatim_html, AutoEscape::Html); // tier
 safe_verbatim_harness!(c02_safe_string_verbatim_none, AutoEscape::None); // tier=quick cap=600
 // @verif-end
 
+// @verif props=C12 tier=quick cap=600 group=core fns=UndefinedBehavior::try_iter
+/// The iteration site: try_iter on an undefined value fails under Strict and SemiStrict and yields an empty
+/// iteration under Lenient and Chainable; a silent undefined and none-like falsy scalars behave the same in
+/// every mode (monotone: what succeeds under a stricter mode succeeds under every weaker one).
+#[kani::proof]
+#[kani::unwind(4)]
+#[kani::stub(alloc::fmt::format, crate::verif_common::format_stub)]
+fn c12_try_iter_undefined_matrix() {
+    let mk: u8 = kani::any();
+    kani::assume(mk < 4);
+    let silent: bool = kani::any();
+    let v = if silent { falsy(1) } else { falsy(0) };
+    let r = mode(mk).try_iter(v);
+    match r {
+        Ok(ref it) => {
+            assert!(silent || mk < 2);
+            let _ = it;
+        }
+        Err(ref e) => {
+            assert!(!silent && mk >= 2);
+            assert!(matches!(e.kind(), ErrorKind::UndefinedError));
+        }
+    }
+    kani::cover!(r.is_ok() && !silent);
+    kani::cover!(r.is_err());
+    core::mem::forget(r);
+}
+
 #[cfg(test)]
 mod playback {
     use super::*;
